@@ -18,8 +18,17 @@ use std::ops::*;
 // The abstract scalar.  Field operations are inlined down to primitive f64 BinOps; every
 // other operation stays an opaque call the executor interprets (DESIGN 1.1(a),(d)).
 // ------------------------------------------------------------------------------------------
-#[derive(Copy, Clone, Debug, PartialEq, PartialOrd)]
+#[derive(Copy, Clone, Debug, PartialEq)]
 pub struct R(pub f64);
+// comparisons lower to single f64 comparisons (the derived impl would route every `<` through a
+// four-way partial_cmp diamond and multiply paths); semantics are those of f64, NaN included
+impl PartialOrd for R {
+    #[inline(always)] fn partial_cmp(&self, o: &R) -> Option<std::cmp::Ordering> { self.0.partial_cmp(&o.0) }
+    #[inline(always)] fn lt(&self, o: &R) -> bool { self.0 < o.0 }
+    #[inline(always)] fn le(&self, o: &R) -> bool { self.0 <= o.0 }
+    #[inline(always)] fn gt(&self, o: &R) -> bool { self.0 > o.0 }
+    #[inline(always)] fn ge(&self, o: &R) -> bool { self.0 >= o.0 }
+}
 
 macro_rules! binop { ($Tr:ident, $f:ident, $TrA:ident, $fa:ident, $op:tt) => {
     impl $Tr for R { type Output = R; #[inline(always)] fn $f(self, o: R) -> R { R(self.0 $op o.0) } }
@@ -206,7 +215,7 @@ pub type HarnessFn = fn(&mut dyn Iterator<Item = Leaf>);
 #[macro_export]
 macro_rules! harnesses {
     ($reg:ident; $( $(#[$m:meta])* fn $name:ident ( $($arg:ident : $ty:ty),* $(,)? ) $body:block )*) => {
-        $( $(#[$m])* #[allow(unused_mut, unused_variables)] pub fn $name($($arg: $ty),*) $body )*
+        $( $(#[$m])* #[allow(unused_mut, unused_variables)] #[inline(never)] pub fn $name($($arg: $ty),*) $body )*
         #[cfg(feature = "native")]
         pub fn $reg() -> Vec<(&'static str, $crate::HarnessFn)> {
             vec![ $( (stringify!($name), (|it: &mut dyn Iterator<Item = $crate::Leaf>| { $( let $arg: $ty = $crate::Leaves::build(it); )* $name($($arg),*); }) as $crate::HarnessFn) ),* ]
